@@ -12,9 +12,13 @@ import (
 	"encoding/hex"
 	"errors"
 	"fmt"
+	"reflect"
 	"runtime"
 	"sort"
 	"strings"
+	"sync"
+	"sync/atomic"
+	"time"
 
 	"github.com/CrowdStrike/csproto"
 	gogoproto "github.com/gogo/protobuf/proto"
@@ -94,6 +98,25 @@ func (x *explorer) valueLegend() map[string]string {
 // ---- guarded calls into csproto ---------------------------------------------------------------------------
 
 func guard(f func()) (pan any) {
+	if anyPoison.Load() {
+		// some call has panicked in this run, possibly with a message lock held: from now on every guarded call runs
+		// on the side with a deadline, so that a call blocking on such a lock is reported instead of hanging the check
+		// (never taken on a tree where nothing panics)
+		ch := make(chan any, 1)
+		go func() { ch <- guard0(f) }()
+		select {
+		case pan = <-ch:
+			return pan
+		case <-time.After(10 * time.Second):
+			return "the call blocks (a lock of the message was left held by an earlier call that panicked)"
+		}
+	}
+	return guard0(f)
+}
+
+var anyPoison atomic.Bool
+
+func guard0(f func()) (pan any) {
 	defer func() {
 		if p := recover(); p != nil {
 			pan = p
@@ -103,23 +126,48 @@ func guard(f func()) (pan any) {
 	return nil
 }
 
+// A call that panics may do so while holding a lock of the message (the V1 runtimes guard the extension map with a
+// mutex): the instance is unusable afterwards and touching it again would block forever. Such instances are
+// remembered; snapshot() reports them as unusable instead of reading them, which makes the caller replace them.
+var poisoned sync.Map // message pointer -> panic text
+
+func mark(m any, pan any) any {
+	// csproto's own documented panic for a descriptor of the wrong type is raised before the message is touched
+	if pan != nil && m != nil && reflect.ValueOf(m).Kind() == reflect.Ptr && !strings.HasPrefix(fmt.Sprint(pan), csClearPanicPrefix) {
+		poisoned.Store(reflect.ValueOf(m).Pointer(), fmt.Sprint(pan))
+		anyPoison.Store(true)
+	}
+	return pan
+}
+
+func isPoisoned(m any) (string, bool) {
+	if m == nil || reflect.ValueOf(m).Kind() != reflect.Ptr {
+		return "", false
+	}
+	v, ok := poisoned.Load(reflect.ValueOf(m).Pointer())
+	if !ok {
+		return "", false
+	}
+	return v.(string), true
+}
+
 func csHas(m, d any) (has bool, pan any) {
-	pan = guard(func() { has = csproto.HasExtension(m, d) })
+	pan = mark(m, guard(func() { has = csproto.HasExtension(m, d) }))
 	return
 }
 
 func csGet(m, d any) (v any, err error, pan any) {
-	pan = guard(func() { v, err = csproto.GetExtension(m, d) })
+	pan = mark(m, guard(func() { v, err = csproto.GetExtension(m, d) }))
 	return
 }
 
 func csSet(m, d, v any) (err error, pan any) {
-	pan = guard(func() { err = csproto.SetExtension(m, d, v) })
+	pan = mark(m, guard(func() { err = csproto.SetExtension(m, d, v) }))
 	return
 }
 
-func csClear(m, d any) (pan any) { return guard(func() { csproto.ClearExtension(m, d) }) }
-func csClearAll(m any) (pan any) { return guard(func() { csproto.ClearAllExtensions(m) }) }
+func csClear(m, d any) (pan any) { return mark(m, guard(func() { csproto.ClearExtension(m, d) })) }
+func csClearAll(m any) (pan any) { return mark(m, guard(func() { csproto.ClearAllExtensions(m) })) }
 
 type visit struct {
 	value any
@@ -266,6 +314,11 @@ func (x *explorer) verify(m any, model []int, hist []int, where string) {
 		x.r.Evals(2)
 		// HasExtension
 		has, pan := csHas(m, e.desc)
+		if pan != nil && !x.usable(m) {
+			x.fail(fmt.Sprintf("HasExtension/%s/%s/panic%s", s.rt, e.short, at), hist, map[string]any{"panic": fmt.Sprint(pan), "note": "the message cannot be read any more (lock left held)"})
+			m, _, _ = x.replay(hist, false)
+			continue
+		}
 		rh := rtHas(s, m, e)
 		switch {
 		case pan != nil:
@@ -277,6 +330,11 @@ func (x *explorer) verify(m any, model []int, hist []int, where string) {
 		}
 		// GetExtension
 		v, err, pan := csGet(m, e.desc)
+		if pan != nil && !x.usable(m) {
+			x.fail(fmt.Sprintf("GetExtension/%s/%s/panic%s", s.rt, e.short, at), hist, map[string]any{"panic": fmt.Sprint(pan), "note": "the message cannot be read any more (lock left held)"})
+			m, _, _ = x.replay(hist, false)
+			continue
+		}
 		rv, rerr := rtGet(s, m, e)
 		if pan != nil {
 			x.fail(fmt.Sprintf("GetExtension/%s/%s/panic%s", s.rt, e.short, at), hist, map[string]any{"panic": fmt.Sprint(pan)})
@@ -388,6 +446,39 @@ func (x *explorer) verify(m any, model []int, hist []int, where string) {
 
 // snapshot identifies the logical content of a message (for "must not be modified").
 func (x *explorer) snapshot(m any) string {
+	if why, bad := isPoisoned(m); bad {
+		// a call on this instance panicked earlier. Most panics leave the message readable (they are raised before it is
+		// touched); one raised while the runtime holds the message's extension lock does not, and reading would block
+		// forever. So the instance is read on the side and given up on if that does not come back.
+		if _, known := blocking.Load(why); known {
+			return "UNUSABLE: reading the message blocks after an earlier call on it panicked (" + why + ")"
+		}
+		ch := make(chan string, 1)
+		go func() { ch <- x.snapshot0(m) }()
+		select {
+		case s := <-ch:
+			return s
+		case <-time.After(10 * time.Second):
+			blocking.Store(why, true) // the same panic leaves the same lock held: do not wait again
+			return "UNUSABLE: reading the message blocks after an earlier call on it panicked (" + why + ")"
+		}
+	}
+	return x.snapshot0(m)
+}
+
+// blocking remembers panic texts after which reading the message was seen to block.
+var blocking sync.Map
+
+// usable reports whether m may be read directly; an instance on which a call panicked is probed (snapshot with a
+// deadline) and must be replaced by the caller when the probe does not come back.
+func (x *explorer) usable(m any) bool {
+	if _, bad := isPoisoned(m); !bad {
+		return true
+	}
+	return !strings.HasPrefix(x.snapshot(m), "UNUSABLE:")
+}
+
+func (x *explorer) snapshot0(m any) string {
 	b, err := indepBytes(x.s, m)
 	if err != nil {
 		return "ERR:" + err.Error()
